@@ -289,6 +289,10 @@ func ximageCompare(k *mon.Case, f *sfnt.Font, info *fontgen.Info, out []byte, de
 						return
 					}
 					k.Class("ximage:name-compared")
+				} else if !isUnsupportedXimage(err) && o.Names[gid] != "" {
+					k.Eval()
+					k.Fail("mismatch", "ximage:glyph-name-missing", "x/image finds no name for glyph %d (%v), the font names it %q (%s)", gid, err, o.Names[gid], desc)
+					return
 				}
 			}
 			want, ok := ttExpected(o, gid, 0, 0, 0)
@@ -361,6 +365,9 @@ func c03fonts(c *mon.Ctx) {
 			o.MaxGlyphs = 3
 		case 1:
 			o.MinGlyphs, o.MaxGlyphs = 255, 257
+			if k.Index/18%2 == 1 {
+				o.MinGlyphs, o.MaxGlyphs = 258, 262
+			}
 		case 2:
 			if c.Thorough() {
 				o.MinGlyphs, o.MaxGlyphs = 900, 1100
